@@ -38,6 +38,8 @@ pub fn hist_plan(prop: &str, tier: &str) -> Plan {
     match prop {
         "C01" => plan_c01(thorough),
         "C02" => plan_c02(thorough),
+        "C16" => plan_c16(thorough),
+        "C19" => plan_c19(thorough),
         _ => panic!("no history plan for {prop}"),
     }
 }
@@ -165,5 +167,66 @@ fn plan_c02(thorough: bool) -> Plan {
     );
     p.budget_s = if thorough { 1500 } else { 40 };
     p.assumptions = vec!["collision resistance of the hasher (equal roots ⇔ equal tries)".into()];
+    p
+}
+
+fn set_all(cases: &mut Vec<Value>, key: &str, v: Value) {
+    for c in cases.iter_mut() {
+        c[key] = v.clone();
+    }
+}
+
+/// The structural history family shared by C16 and C19: value-file structure (splits, merges,
+/// overflow chains, free lists) and merkle-page structure (elision threshold, tombstones).
+fn structural_family(thorough: bool, buckets: &[u32]) -> Vec<Value> {
+    let mut cases = vec![];
+    for &bk in buckets {
+        let mut cfg = cfg_small();
+        cfg.buckets = bk;
+        let a_small = acts(&[("w", Some(1)), ("w", Some(1333)), ("d", None), ("w", Some(70000)), ("w", Some(1300))]);
+        cases.extend(enum_commit_histories(if thorough { 3 } else { 2 }, 4, if thorough { 3 } else { 2 }, &a_small, &mk_case("empty", vec!["U4"], &cfg, "noproof", false)));
+        let a_seed = acts(&[("w", Some(1300)), ("w", Some(1)), ("d", None), ("w", Some(70000))]);
+        cases.extend(enum_commit_histories(2, 6, 2, &a_seed, &mk_case("leaf", vec!["seed:0,2,3,5", "CL0:0-2"], &cfg, "noproof", false)));
+        let a = acts(&[("w", Some(1)), ("d", None)]);
+        for p in [12usize, 18] {
+            for n in [19u32, 20, 21] {
+                let seed = format!("cl{p}x{n}");
+                let uni = format!("CL{p}:{}-{}", n - 2, n + 2);
+                cases.extend(enum_commit_histories(2, 4, if thorough { 3 } else { 2 }, &a, &mk_case(&seed, vec![&uni], &cfg, "noproof", false)));
+            }
+        }
+        if bk >= 1024 {
+            let a_br = acts(&[("w", Some(1300)), ("d", None), ("w", Some(1))]);
+            cases.extend(enum_commit_histories(2, 6, 2, &a_br, &mk_case("branch", vec!["seed:0,1,299,300,598,599"], &cfg, "noproof", false)));
+            cases.extend(enum_commit_histories(2, 4, 2, &a_br, &mk_case("bulk", vec!["seed:0,700,1499", "CL0:0-1"], &cfg, "noproof", false)));
+            let a_ovf = acts(&[("w", Some(1)), ("d", None), ("w", Some(70000))]);
+            cases.extend(enum_commit_histories(2, 2, 2, &a_ovf, &mk_case("ovf", vec!["seed:0", "CL0:0-1"], &cfg, "noproof", false)));
+        }
+    }
+    cases
+}
+
+fn plan_c16(thorough: bool) -> Plan {
+    let mut cases = structural_family(thorough, if thorough { &[64, 256, 4096] } else { &[64, 4096] });
+    set_all(&mut cases, "image", json!("c16"));
+    sort_by_bound(&mut cases);
+    let mut p = Plan::new(
+        cases,
+        "histx + imgdec: every history of ≤D commits with ≤B key actions over structural seed states (empty, leaf, branch, bulk, ovf, clusters of 19..21 keys below a depth-2 and a depth-3 merkle page) with hash tables of 64/256/4096 buckets; at every quiescent point (after open and after every commit) the directory is decoded by an independent decoder written from the documented formats: every key in exactly one leaf, strict order within/across leaves, keys bounded by separators, bbn labels, overflow chains complete with matching value hash and disjoint pages, used ∩ free = ∅, no page used twice, decoded key-value map = model; every full bucket found exactly once through its own probe sequence, every node reachable in every stored page = the reference trie's node at that position, needed pages either stored or marked elided (and then absent with all descendants), no unreachable stored page.",
+    );
+    p.budget_s = if thorough { 1500 } else { 45 };
+    p.assumptions = vec!["the decoder implements the documented layouts (trusted, ~600 lines, shares no code with nomt)".into(), "crash-recovered images are covered by the C03 check, which applies the same decoder".into()];
+    p
+}
+
+fn plan_c19(thorough: bool) -> Plan {
+    let mut cases = structural_family(thorough, if thorough { &[64, 4096, 64000] } else { &[64, 4096] });
+    set_all(&mut cases, "image", json!("c19"));
+    sort_by_bound(&mut cases);
+    let mut p = Plan::new(
+        cases,
+        "histx + imgdec: the structural history family of C16; at every quiescent point the decoder's page accounting must give [1, bump) = in-use ⊎ free-list-tracked in both value files (no leak, no double use), and hash_table_utilization().occupied = number of full buckets in the decoded meta map = number of stored pages reachable from the root (0 for an empty store).",
+    );
+    p.budget_s = if thorough { 1500 } else { 45 };
     p
 }
